@@ -79,6 +79,15 @@ Model/Stream.vos Model/Stream.vok Model/Stream.required_vos: Model/Stream.v
 Model/StreamCheck.vo Model/StreamCheck.glob Model/StreamCheck.v.beautified Model/StreamCheck.required_vo: Model/StreamCheck.v Model/Stream.vo
 Model/StreamCheck.vio: Model/StreamCheck.v Model/Stream.vio
 Model/StreamCheck.vos Model/StreamCheck.vok Model/StreamCheck.required_vos: Model/StreamCheck.v Model/Stream.vos
+Model/Shared.vo Model/Shared.glob Model/Shared.v.beautified Model/Shared.required_vo: Model/Shared.v 
+Model/Shared.vio: Model/Shared.v 
+Model/Shared.vos Model/Shared.vok Model/Shared.required_vos: Model/Shared.v 
+Gen/Shared_gen.vo Gen/Shared_gen.glob Gen/Shared_gen.v.beautified Gen/Shared_gen.required_vo: Gen/Shared_gen.v Model/Shared.vo
+Gen/Shared_gen.vio: Gen/Shared_gen.v Model/Shared.vio
+Gen/Shared_gen.vos Gen/Shared_gen.vok Gen/Shared_gen.required_vos: Gen/Shared_gen.v Model/Shared.vos
+Model/SharedCheck.vo Model/SharedCheck.glob Model/SharedCheck.v.beautified Model/SharedCheck.required_vo: Model/SharedCheck.v Model/Shared.vo Gen/Shared_gen.vo
+Model/SharedCheck.vio: Model/SharedCheck.v Model/Shared.vio Gen/Shared_gen.vio
+Model/SharedCheck.vos Model/SharedCheck.vok Model/SharedCheck.required_vos: Model/SharedCheck.v Model/Shared.vos Gen/Shared_gen.vos
 Model/Loader.vo Model/Loader.glob Model/Loader.v.beautified Model/Loader.required_vo: Model/Loader.v 
 Model/Loader.vio: Model/Loader.v 
 Model/Loader.vos Model/Loader.vok Model/Loader.required_vos: Model/Loader.v 
@@ -196,3 +205,9 @@ Proofs/Dcg.vos Proofs/Dcg.vok Proofs/Dcg.required_vos: Proofs/Dcg.v Model/DcgCor
 Props/C17.vo Props/C17.glob Props/C17.v.beautified Props/C17.required_vo: Props/C17.v Model/DcgCore.vo Model/Term.vo Model/Dcg.vo Proofs/Dcg.vo
 Props/C17.vio: Props/C17.v Model/DcgCore.vio Model/Term.vio Model/Dcg.vio Proofs/Dcg.vio
 Props/C17.vos Props/C17.vok Props/C17.required_vos: Props/C17.v Model/DcgCore.vos Model/Term.vos Model/Dcg.vos Proofs/Dcg.vos
+Proofs/Atoms.vo Proofs/Atoms.glob Proofs/Atoms.v.beautified Proofs/Atoms.required_vo: Proofs/Atoms.v Model/Shared.vo
+Proofs/Atoms.vio: Proofs/Atoms.v Model/Shared.vio
+Proofs/Atoms.vos Proofs/Atoms.vok Proofs/Atoms.required_vos: Proofs/Atoms.v Model/Shared.vos
+Props/C14.vo Props/C14.glob Props/C14.v.beautified Props/C14.required_vo: Props/C14.v Model/Shared.vo Gen/Shared_gen.vo Proofs/Atoms.vo
+Props/C14.vio: Props/C14.v Model/Shared.vio Gen/Shared_gen.vio Proofs/Atoms.vio
+Props/C14.vos Props/C14.vok Props/C14.required_vos: Props/C14.v Model/Shared.vos Gen/Shared_gen.vos Proofs/Atoms.vos
